@@ -122,3 +122,34 @@ Theorem C15_mismatch_rejected : forall mp tables id tm ti,
   table_info_for mp tables id tm = AStop CMismatch.
 Proof. exact mismatch_rejected. Qed.
 Print Assumptions C15_mismatch_rejected.
+
+(* ---------------------------------------------------------------------------------------------------------------
+   Tie to the source.  The functions *_g below are generated from /repo on every run by harness/cmd/gotrans
+   (gen/Trans*.v); the theorems say that, for ALL inputs, they compute what the hand-written model functions used in
+   the statements above compute (res_sim: the same value, or both an error, or both a panic), under the premises Go's
+   types provide.  A change to one of these Go functions that alters its behaviour makes the proof below fail. *)
+From GB Require Import Model.Header Model.Events Model.Rbr Model.Cell Base.GoSem Proofs.TransTactics Proofs.TransEquivCell Proofs.TransEquivMeta Proofs.TransEquivBitmap Proofs.TransEquivHeader Proofs.TransEquivEvents Proofs.TransEquivRbr.
+From GBGen Require Import TransCell TransMeta TransBitmap TransHeader TransEvents TransRbr.
+Open Scope Z_scope.
+
+Theorem C15_tie_TableMap : forall fuel ev f,
+  wf_bytes ev -> hlen_byte f -> len ev < 2 ^ 62 -> (length ev < fuel)%nat ->
+  res_sim (binlogEvent_TableMap_g fuel ev (Format_of f)) (res_map TableMap_of (ev_table_map f ev)).
+Proof. exact binlogEvent_TableMap_equiv. Qed.
+Print Assumptions C15_tie_TableMap.
+
+Theorem C15_tie_metadataRead : forall d pos typ,
+  Z.of_nat pos < 2 ^ 62 -> res_sim (metadataRead_g d (Z.of_nat pos) typ) (res_map pos_of (metadata_read d pos typ)).
+Proof. exact metadataRead_equiv. Qed.
+Print Assumptions C15_tie_metadataRead.
+
+Theorem C15_tie_readLenEncInt : forall d pos,
+  wf_bytes d -> Z.of_nat pos < 2 ^ 62 -> res_sim (readLenEncInt_g d (Z.of_nat pos)) (res_map lenenc_of (read_lenenc d pos)).
+Proof. exact readLenEncInt_equiv. Qed.
+Print Assumptions C15_tie_readLenEncInt.
+
+Theorem C15_tie_TableID : forall ev f,
+  wf_bytes ev -> hlen_byte f -> res_sim (binlogEvent_TableID_g ev (Format_of f)) (ev_table_id f ev).
+Proof. exact binlogEvent_TableID_equiv. Qed.
+Print Assumptions C15_tie_TableID.
+
